@@ -211,6 +211,93 @@ def gen_tables(manifest):
 
 
 # ------------------------------------------------------------------------------------------------------------
+# framing: which fields of a wire structure are covered by what is signed / MACed / used as AAD
+
+
+def struct_fields(src, name):
+    m = re.search(r"\bstruct\s+" + re.escape(name) + r"\b[^{;(]*\{", src)
+    if not m:
+        raise SystemExit(f"translate: struct {name} not found")
+    i = m.end()
+    depth = 1
+    k = i
+    while depth:
+        c = src[k]
+        depth += c == "{"
+        depth -= c == "}"
+        k += 1
+    body = src[i:k - 1]
+    body = re.sub(r"#\[[^\]]*\]", "", body)          # attributes
+    fields = []
+    for part in re.split(r",\s*\n", body):
+        mm = re.match(r"\s*(?:pub(?:\([a-z]+\))?\s+)?(\w+)\s*:", part)
+        if mm:
+            fields.append(mm.group(1))
+    if not fields:
+        raise SystemExit(f"translate: no fields parsed for struct {name}")
+    return fields
+
+
+def encode_order(src, ty):
+    """field order of a hand-written `impl MlsEncode for ty`: sequence of `self.<field>` uses in mls_encode"""
+    m = re.search(r"impl(?:<[^>]*>)?\s+MlsEncode\s+for\s+" + re.escape(ty) + r"\b", src)
+    if not m:
+        raise SystemExit(f"translate: impl MlsEncode for {ty} not found")
+    body = fn_body(src[m.start():], "mls_encode")
+    out = []
+    for f in re.findall(r"self\.(\w+)", body):
+        if f not in out:
+            out.append(f)
+    return out
+
+
+def gen_framing(manifest):
+    fr = strip_comments(read("mls-rs/src/group/framing.rs"))
+    ms = strip_comments(read("mls-rs/src/group/message_signature.rs"))
+    mt = strip_comments(read("mls-rs/src/group/membership_tag.rs"))
+    sd = strip_comments(read("mls-rs/src/group/ciphertext_processor/sender_data_key.rs"))
+    gi = strip_comments(read("mls-rs/src/group/group_info.rs"))
+    kp = strip_comments(read("mls-rs/src/key_package/mod.rs"))
+    ln = strip_comments(read("mls-rs/src/tree_kem/leaf_node.rs"))
+    lists = {
+        "framedContent": struct_fields(fr, "FramedContent"),
+        "publicMessage": struct_fields(fr, "PublicMessage"),
+        "authData": struct_fields(ms, "FramedContentAuthData"),
+        "tbs": encode_order(ms, "AuthenticatedContentTBS"),
+        "tbm": struct_fields(mt, "AuthenticatedContentTBM"),
+        "privateMessage": struct_fields(fr, "PrivateMessage"),
+        "privateContentAad": struct_fields(fr, "PrivateContentAAD"),
+        "senderDataAad": struct_fields(sd, "SenderDataAAD"),
+        "senderData": struct_fields(sd, "SenderData"),
+        "groupInfo": struct_fields(gi, "GroupInfo"),
+        "groupInfoTbs": struct_fields(gi, "SignableGroupInfo"),
+        "keyPackage": struct_fields(kp, "KeyPackage"),
+        "keyPackageTbs": struct_fields(kp, "KeyPackageData"),
+        "leafNode": struct_fields(ln, "LeafNode"),
+        "leafNodeTbs": encode_order(ln, "LeafNodeTBS"),
+    }
+    names = sorted({f for l in lists.values() for f in l})
+    code = {n: i + 1 for i, n in enumerate(names)}
+    out = ["/- GENERATED by tools/translate.py from the Rust sources; do not edit.",
+           "   Field lists of the wire structures and of what is signed / MACed / used as AEAD associated data.",
+           "   Field names are numbered (alphabetically over all names below):"]
+    out += [f"     {code[n]:3d} = {n}" for n in names]
+    out += ["-/", "namespace MlsVerif.Gen.Framing", ""]
+    for k, l in lists.items():
+        out.append(f"/-- {', '.join(l)} -/")
+        out.append(f"def {k} : List Nat := [" + ", ".join(str(code[f]) for f in l) + "]")
+    for n in ["signature", "confirmation_tag", "membership_tag", "content", "auth", "encrypted_sender_data", "ciphertext",
+              "group_id", "epoch", "content_type", "authenticated_data", "content_tbs", "context", "wire_format", "protocol_version",
+              "leaf_index"]:
+        if n not in code:
+            raise SystemExit(f"translate: expected field name {n} not present")
+        out.append(f"def f_{n} : Nat := {code[n]}")
+    out.append("end MlsVerif.Gen.Framing")
+    manifest["framing"] = lists
+    return "\n".join(out) + "\n"
+
+
+# ------------------------------------------------------------------------------------------------------------
 
 
 def write_if_changed(path, text):
@@ -234,6 +321,8 @@ def main():
         changed.append("Pipelines")
     if write_if_changed(os.path.join(OUT, "Tables.lean"), gen_tables(manifest)):
         changed.append("Tables")
+    if write_if_changed(os.path.join(OUT, "Framing.lean"), gen_framing(manifest)):
+        changed.append("Framing")
     schemas = os.path.join(os.path.dirname(os.path.abspath(__file__)), "translate_schemas.py")
     if os.path.exists(schemas):
         import importlib.util
